@@ -1,5 +1,6 @@
 import StepModel.ExpLexLayout
 import StepModel.ExpLexStr
+import StepModel.ExpLexGlue
 /-!
 # C07, character level: what the scanner reads from the laid-out text of an expression
 
@@ -181,6 +182,36 @@ theorem C07_lex_layout_strings_exec_partial (e : Expr) (hw : lexWFS (respell e))
     ∃ ts, lex (run st (exprFrags Shared.clean e p q)).text = some ts ∧ Joined ts (toks Shared.clean (respell e) p q) := by
   obtain ⟨ts, hl, hj⟩ := C07_lex_layout_strings_partial e hw p q st [] (K_init st h0 hs)
   exact ⟨ts, lex_of_lexes (by simpa using hl), hj⟩
+
+/-- **The glue table, explicit.**  Where the no-glue condition lets a printed token `t0` be followed directly by the token `t`
+(`adjOK`: no white space in between), the last character of `t0` and the first of `t` never form a remark opener `--` or `(*`, a
+remark closer `*)`, or one of the two-character operators `<=`, `:=`, `<>`, `||`, `**` — for every pair of tokens the printers
+can emit (identifiers, literals incl. REAL spellings and string literals, keywords, all 21 operators, punctuation). -/
+theorem C07_adjacent_tokens_no_glue (t0 t : Tok) (hw : TokWF t0) (d c : Char) (hd : (sp t0).getLast? = some d)
+    (hc : (sp t).head? = some c) (hadj : adjOK t0 t = true) : (d, c) ∉ gluePairs := by
+  apply no_glue_pairs t0 hw c d hd
+  cases hs : sp t with
+  | nil => rw [hs] at hc; simp at hc
+  | cons c' r =>
+    rw [hs] at hc
+    simp only [List.head?_cons, Option.some.injEq] at hc
+    subst hc
+    simpa [adjOK, hs] using hadj
+
+/-- **Every fragment boundary of the expression printer is safe, statically** — the premise `K_run`/`K_runS` need and the
+answer to "can two adjacent printed tokens glue": in the fragment sequence exppp emits for an expression (`annotS`, equal to
+`exprFrags` fragment by fragment and carrying its tokens: first two conjuncts), wherever a fragment starts without a blank the
+token left open by the fragment before it may be followed directly by this fragment's first token (`SafeSeqS`: `adjOK`, hence
+`C07_adjacent_tokens_no_glue`), for every context (`paren`, parent operator) and whatever token `slt` was open before the
+expression as long as an expression may follow it (`Pre`: nothing, `[`, or unary `-` before a parenthesised operand).  E.g.
+`-( -x )`: the operand of unary minus is printed with `paren = 1`, so `-` is followed by `(`, never by a second `-`
+(seed C07-e1 removes those parentheses: `--x`, a tail remark). -/
+theorem C07_fragment_boundaries_safe_partial (e : Expr) (hw : lexWFS e) (p : Bool) (q : Option BinOp) (slt : Option Tok)
+    (hpre : Pre slt p) :
+    (annotS e p q).map SeqEl.frag = exprFrags Shared.clean e p q
+      ∧ (annotS e p q).flatMap SeqEl.toks = toks Shared.clean e p q
+      ∧ SafeSeqS slt (annotS e p q) :=
+  ⟨((annotS_eq e).1 p q hw).1, ((annotS_eq e).1 p q hw).2, ((safe_allS e).1 p q slt hw hpre).1⟩
 
 /-- grammar token of a punctuation/operator token of the model -/
 def symTokName : Tok → Option String
